@@ -5,7 +5,7 @@ import vlib
 from vlib import ang_float, rand_ang, dump_tangelo_gate, dump_model_gate, gates_equal, np_circuit_unitary, tangelo_dump_to_specs
 
 CLAIM = {
- "text": "Proof (Lean 4), partial: the model of exp_pauliword_to_gates / the Trotter decomposition (orders 1, 2) / the emission loop of get_exponentiated_qubit_operator_circuit / trotterize is tied to the code by gate-list correspondence. Proved for the model: the CNOT ladder around a diagonal rotation acts as the parity-controlled phase on every support (induction over the ladder); the basis-change identities H Z H = X and RX(pi/2)^-1 Z RX(pi/2) = Y as matrix identities; hence exp_pauliword_to_gates implements cos c - i sin c P for every Z-type word of any length, with and without control (controlled version including the phase); and for the GENERAL word (any mix of X, Y, Z letters on distinct qubits, any length, both sign branches of the angle rule, optional control list disjoint from the word): the emitted list - basis changes, CNOT ladder, (C)RZ, reversed ladder, inverse basis changes in reverse order - acts as cos c * psi - i sin c * (P_w psi) where all control bits are 1 and as the identity elsewhere, on every state of every register size (one-qubit operators on different qubits commute, B^-1 Z B = X / Y letter by letter, linearity with coefficients that depend on the control bits only), also instantiated for the executable amplitudes; the angle rule 2c / 4pi+2c denotes the same operator (4pi-periodicity); identity-term contributions equal exp(-ic) (returned phase; PHASE on a single control; multi-controlled phase); order-2 list is the palindrome of two half-time order-1 lists; repeating the circuit n times composes the semantics n times. NOT proved: that the word operator P_w of the model (letter-by-letter one-qubit Pauli matrices) exponentiates to cos - i sin P_w as a matrix exponential (the oracle compares with expm numerically), and the product-formula commutator error bounds (stated; checked numerically with the standard first/second-order bounds).",
+ "text": "Proof (Lean 4), partial: the model of exp_pauliword_to_gates / the Trotter decomposition (orders 1, 2) / the emission loop of get_exponentiated_qubit_operator_circuit / trotterize is tied to the code by gate-list correspondence. Proved for the model: the CNOT ladder around a diagonal rotation acts as the parity-controlled phase on every support (induction over the ladder); the basis-change identities H Z H = X and RX(pi/2)^-1 Z RX(pi/2) = Y as matrix identities; hence exp_pauliword_to_gates implements cos c - i sin c P for every Z-type word of any length, with and without control (controlled version including the phase); and for the GENERAL word (any mix of X, Y, Z letters on distinct qubits, any length, both sign branches of the angle rule, optional control list disjoint from the word): the emitted list - basis changes, CNOT ladder, (C)RZ, reversed ladder, inverse basis changes in reverse order - acts as cos c * psi - i sin c * (P_w psi) where all control bits are 1 and as the identity elsewhere, on every state of every register size (one-qubit operators on different qubits commute, B^-1 Z B = X / Y letter by letter, linearity with coefficients that depend on the control bits only), also instantiated for the executable amplitudes; the angle rule 2c / 4pi+2c denotes the same operator (4pi-periodicity); identity-term contributions equal exp(-ic) (returned phase; PHASE on a single control; multi-controlled phase); order-2 list is the palindrome of two half-time order-1 lists; repeating the circuit n times composes the semantics n times; for an operator whose terms are identity words and Z-type words (a commuting family) the whole emission loop, uncontrolled, is EXACT for every term list and every number of steps: the circuit denotes the diagonal operator x -> (prod_j exp(-+ i c_j))^n, the returned phase angle is the sum of the identity coefficients (emit_diagonal_exact, trotter_diagonal_exact, under the stated hypothesis that the float decision |coef| > 1e-10 keeps every non-identity term; emitStep_dropped shows a rejected term leaves no trace). NOT proved: that the word operator P_w of the model (letter-by-letter one-qubit Pauli matrices) exponentiates to cos - i sin P_w as a matrix exponential (the oracle compares with expm numerically), and the product-formula commutator error bounds (stated; checked numerically with the standard first/second-order bounds).",
  "note": "Trusted: Lean kernel + standard axioms; correspondence harness; scipy.linalg.expm and numpy in the oracle. Coefficients are exact angles so that 2c, 4pi+2c, time scaling by integers and halving are exact; the float tests coef >= 0 and |coef| > 1e-10 are evaluated in Float by the driver (no case within 1e-9 of a threshold is generated except exact zero).",
  "technique": "Lean 4 theorems (CNOT-ladder parity lemma, basis-change identities, periodicity, composition) + gate-list correspondence + expm oracle with commutator bounds"}
 
